@@ -84,11 +84,11 @@ def model_sorted(V, st, args, kwargs, node):
     r = fresh(t, 'sorted')
     V.assumed_used.add('builtin sorted (same elements, ordered by key)')
     n = z3.Length(s)
-    st.assume(z3.Length(r.z) == n)
+    st.fact(z3.Length(r.z) == n)
     i = z3.Int(fresh_name('si'))
     j = z3.Int(fresh_name('sj'))
-    st.assume(z3.ForAll([i], z3.Implies(z3.And(i >= 0, i < n), z3.Contains(s, z3.Unit(r.z[i])))))
-    st.assume(z3.ForAll([i], z3.Implies(z3.And(i >= 0, i < n), z3.Contains(r.z, z3.Unit(s[i])))))
+    st.fact(z3.ForAll([i], z3.Implies(z3.And(i >= 0, i < n), z3.Contains(s, z3.Unit(r.z[i])))))
+    st.fact(z3.ForAll([i], z3.Implies(z3.And(i >= 0, i < n), z3.Contains(r.z, z3.Unit(s[i])))))
 
     def k(elem):
         if key is None:
@@ -102,7 +102,7 @@ def model_sorted(V, st, args, kwargs, node):
         ki = k(SV(t.elem, r.z[i]))
         kj = k(SV(t.elem, r.z[j]))
         lt = py_lt(ki, kj, True) if reverse else py_lt(kj, ki, True)
-        st.assume(z3.ForAll([i, j], z3.Implies(z3.And(i >= 0, i < j, j < n), z3.Not(lt))))
+        st.fact(z3.ForAll([i, j], z3.Implies(z3.And(i >= 0, i < j, j < n), z3.Not(lt))))
     except Unsupported:
         pass    # key not orderable in the model: only the element facts are assumed
     return r
